@@ -1,4 +1,123 @@
-/- oracle_c06 — placeholder driver (replaced when the C06 model is added). -/
+/-
+  oracle_c06 — line-protocol driver for the C06 models (UtxoOps + ChainTree). State = the model chain.
+  Requests (ids / txids are 64-digit hex, scripts hex with "-" for empty):
+    init <rootid> <rootbits>                                   -> ok
+    deliver <dump:0|1> <id> <parent> <bits> <ntx> <tx>*        -> <outcome> <tip> <#outs> <Σvalue> <dump|->
+        <tx> = <txid> <scriptsOk:0|1> <nin> (<txid> <vout>)* <nout> (<value> <script>)*
+        outcome = ok | dup | later | toodeep | err:<kind> | movefailed | panic:<what>
+        dump = comma separated  txid:vout:value:height:cb:script  (unsorted)
+    idle                                                       -> ok        (Idle/save: no observable change)
+    state                                                      -> <tip> <#outs> <Σvalue> <dump>
+    work <bits>                                                -> <num> <den>
+    morepow <id1> <id2>                                        -> 0|1|none
+    farthest                                                   -> <id>
+    undochk                                                    -> ok <n> | bad <height>   (undo file of every active height
+                                                                  within the window is present)
+-/
+import GocoinV.Model.ChainTree
 import GocoinV.Base.Proto
-open GocoinV
-def main : IO Unit := Proto.serve () (fun _ _ => ((), "bad-op"))
+open GocoinV GocoinV.UtxoOps GocoinV.ChainTree
+
+def hexNat (s : String) : Option Nat :=
+  if s.isEmpty then none else
+  s.toList.foldl (fun acc ch => match acc, Hex.unnibble ch with
+    | some a, some d => some (a * 16 + d)
+    | _, _ => none) (some 0)
+
+def natHexAux : Nat → Nat → List Char → List Char
+  | 0, _, acc => acc
+  | k + 1, n, acc => natHexAux k (n / 16) (Hex.nibble (n % 16) :: acc)
+
+def natHex64 (n : Nat) : String := String.ofList (natHexAux 64 n [])
+
+def dumpStr (db : DB) : String :=
+  let es := (dump db).map fun (t, v, c) =>
+    s!"{natHex64 t}:{v}:{c.value}:{c.height}:{if c.coinbase then 1 else 0}:{if c.script.isEmpty then "-" else c.script}"
+  if es.isEmpty then "-" else ",".intercalate es
+
+def summary (c : Chain) (withDump : Bool) : String :=
+  let d := dump c.utxo
+  let sum := (d.map fun (_, _, c) => c.value).sum
+  s!"{natHex64 c.tip} {d.length} {sum} {if withDump then dumpStr c.utxo else "-"}"
+
+def takeIns : Nat → List String → Option (List TxIn × List String)
+  | 0, r => some ([], r)
+  | k + 1, t :: v :: r => do
+    let t ← hexNat t
+    let v ← v.toNat?
+    let (is, r) ← takeIns k r
+    pure ({ txid := t, vout := v } :: is, r)
+  | _, _ => none
+
+def takeOuts : Nat → List String → Option (List Out × List String)
+  | 0, r => some ([], r)
+  | k + 1, v :: s :: r => do
+    let v ← v.toNat?
+    let _ ← Hex.decode s
+    let (os, r) ← takeOuts k r
+    pure ({ value := v, script := if s == "-" then "" else s } :: os, r)
+  | _, _ => none
+
+def takeTxs : Nat → List String → Option (List Tx × List String)
+  | 0, r => some ([], r)
+  | k + 1, t :: ok :: nin :: r => do
+    let t ← hexNat t
+    if ok != "0" && ok != "1" then none
+    let nin ← nin.toNat?
+    let (ins, r) ← takeIns nin r
+    match r with
+    | nout :: r =>
+      let nout ← nout.toNat?
+      let (outs, r) ← takeOuts nout r
+      let (txs, r) ← takeTxs k r
+      pure ({ txid := t, ins := ins, outs := outs, scriptsOk := ok == "1" } :: txs, r)
+    | [] => none
+  | _, _ => none
+
+def undoChk (c : Chain) : String :=
+  let path := activePath c (c.nodes.length + 1) c.tip
+  let hs := path.filterMap fun id => (getNode c id).map (·.height)
+  let tipH := hs.headD 0
+  let need := hs.filter fun h => h > 0 && h + UnwindBufLen > tipH
+  match need.find? (fun h => (alookup h c.undoFiles).isNone) with
+  | some h => s!"bad {h}"
+  | none => s!"ok {need.length}"
+
+def step (c : Chain) (toks : List String) : Chain × String :=
+  let bad := (c, "bad-op")
+  match toks with
+  | ["init", r, b] =>
+    match hexNat r, b.toNat? with
+    | some r, some b => (ChainTree.init r b, "ok")
+    | _, _ => bad
+  | "deliver" :: d :: id :: par :: bits :: ntx :: rest =>
+    if d != "0" && d != "1" then bad else
+    match hexNat id, hexNat par, bits.toNat?, ntx.toNat? with
+    | some id, some par, some bits, some ntx =>
+      match takeTxs ntx rest with
+      | some (txs, []) =>
+        let (c', o) := deliver c { id := id, parent := par, bits := bits, txs := txs }
+        (c', s!"{o.name} {summary c' (d == "1")}")
+      | _ => bad
+    | _, _, _, _ => bad
+  | ["idle"] => (c, "ok")
+  | ["state"] => (c, summary c true)
+  | ["work", b] =>
+    match b.toNat? with
+    | some b => let q := difficulty b; (c, s!"{q.num} {q.den}")
+    | none => bad
+  | ["morepow", a, b] =>
+    match hexNat a, hexNat b with
+    | some a, some b =>
+      match getNode c a, getNode c b with
+      | some x, some y => (c, if morePOW c x y then "1" else "0")
+      | _, _ => (c, "none")
+    | _, _ => bad
+  | ["farthest"] =>
+    match getNode c c.root with
+    | some r => (c, natHex64 (farthest c (c.nodes.length + 1) r).1)
+    | none => (c, "none")
+  | ["undochk"] => (c, undoChk c)
+  | _ => bad
+
+def main : IO Unit := Proto.serve (ChainTree.init 0 0) step
